@@ -528,8 +528,8 @@ def CleanEv : Ev → Prop
 /-- The statement "no run ends in an error of the state machine itself" in full: for every program and history in which USER code
 raises none of the state machine's own exception types, every plan and every armed fault (or none): the process is never EXCEPTED with
 a "cannot transition", an `InvalidStateError` or a failed assertion.  NOT PROVED (no counterexample either: exhaustive search over
-all histories of length ≤ 4 over ten events and of length ≤ 6 over six events × sixty fault points × eight plans of the harness's
-process finds none).  Proved: `C03_no_internal_error_partial` (below) and, for the way such an error could arise inside the model —
+all histories of length ≤ 4 over ten events × sixty fault points, and of length ≤ 6 over six events × thirty fault points, × eight
+plans of the harness's process finds none).  Proved: `C03_no_internal_error_partial` (below) and, for the way such an error could arise inside the model —
 a transition raising it — `C03_transition_raises_nothing`.  Missing for the full statement: that before the fault fires (and in
 runs without a fault, which are runs of `runL`, another function) every exception that becomes the state object comes from user
 code — an invariant on the data that carries user exceptions (failed waiting futures, awaitables, parked wake-ups, the suspended
